@@ -72,9 +72,11 @@ Next ==
                          shape |-> shape, fi |-> fi, w |-> w, p |-> p, ln |-> ln, cv |-> cv]
 (* ---- scanf formats for C09: pre-piece, an n directive (or its escaped text), post-piece; the input text is
         synthesised so that every directive is actually reached.  Argument kind 7 = scratch target. ---- *)
-ScanPre == << <<>>, <<37, 100>>, <<37, 37>>, <<97>>, <<37, 42, 100>>, <<37, 51, 115>>, <<37, 37, 37, 37>> >>
-ScanPreInp == << <<>>, <<49, 50>>, <<37>>, <<97>>, <<55>>, <<120, 121, 122>>, <<37, 37>> >>
-ScanPreArgs == << <<>>, <<7>>, <<>>, <<>>, <<>>, <<7>>, <<>> >>
+\* 8.. scan sets: %[a-z]  %[^]]  %[]]  %[]%n] (a set holding ']', '%' and 'n')  %*[^]]  %[^]x]
+ScanPre == << <<>>, <<37, 100>>, <<37, 37>>, <<97>>, <<37, 42, 100>>, <<37, 51, 115>>, <<37, 37, 37, 37>>,
+              <<37, 91, 97, 45, 122, 93>>, <<37, 91, 94, 93, 93>>, <<37, 91, 93, 93>>, <<37, 91, 93, 37, 110, 93>>, <<37, 42, 91, 94, 93, 93>>, <<37, 91, 94, 93, 120, 93>> >>
+ScanPreInp == << <<>>, <<49, 50>>, <<37>>, <<97>>, <<55>>, <<120, 121, 122>>, <<37, 37>>, <<97, 98>>, <<113>>, <<93>>, <<110>>, <<113>>, <<113>> >>
+ScanPreArgs == << <<>>, <<7>>, <<>>, <<>>, <<>>, <<7>>, <<>>, <<7>>, <<7>>, <<7>>, <<7>>, <<>>, <<7>> >>
 ScanN == << <<37, 110>>, <<37, 108, 110>>, <<37, 104, 104, 110>>, <<37, 108, 108, 110>>, <<37, 53, 110>>, <<37, 42, 110>>, <<37, 37, 110>>, <<110>>, <<37, 104, 110>>, <<37, 106, 110>> >>
 ScanNHas == <<TRUE, TRUE, TRUE, TRUE, TRUE, FALSE, FALSE, FALSE, TRUE, TRUE>>
 ScanNInp == << <<>>, <<>>, <<>>, <<>>, <<>>, <<>>, <<37, 110>>, <<110>>, <<>>, <<>> >>
